@@ -381,6 +381,17 @@ pub fn act_bracket(sim: &mut Sim, ctx: &mut Ctx, kind: BracketKind) -> Option<Tx
         };
         sim.stats.fault("deleverage_tokenless_writeoff_attempt");
         sim.apply(Event::Tx(Tx::one("group_admin", ix::configure_bank(g.key, g.admins.admin, lb.bank_pk, opt))));
+        if ctx.rng.chance(1, 3) {
+            // wind-down declared complete, then the bank is re-opened (flag withdrawn): a
+            // "repay all" by the risk admin must from now on bring tokens like anybody's
+            sim.stats.fault("deleverage_tokenless_flag_withdrawn_again");
+            sim.apply(Event::Tx(Tx::one("risk_admin", ix::force_tokenless_repay_complete(g.key, g.admins.risk, lb.bank_pk))));
+            let off = marginfi_type_crate::types::BankConfigOpt {
+                tokenless_repayments_allowed: Some(false),
+                ..Default::default()
+            };
+            sim.apply(Event::Tx(Tx::one("group_admin", ix::configure_bank(g.key, g.admins.admin, lb.bank_pk, off))));
+        }
         repay_all = Some(true);
     }
     let r_ix = ix::repay(&l_info.keys, target, receiver, src_ta, repay_amt, repay_all);
